@@ -39,6 +39,17 @@ func (r *Rand) Intn(n int) int {
 	return int(r.U64() % uint64(n))
 }
 func (r *Rand) Bool(pct int) bool { return r.Intn(100) < pct }
+func (r *Rand) Perm(n int) []int {
+	p := make([]int, n)
+	for i := range p {
+		p[i] = i
+	}
+	for i := n - 1; i > 0; i-- {
+		j := r.Intn(i + 1)
+		p[i], p[j] = p[j], p[i]
+	}
+	return p
+}
 func (r *Rand) Range(lo, hi int) int { // inclusive
 	if hi <= lo {
 		return lo
@@ -210,6 +221,15 @@ func newRunDir() string {
 		panic(err)
 	}
 	return d
+}
+
+// hashTrace hashes the event log as a multiset per timestamp: lines appended by
+// different goroutines inside one quiescent step may be recorded in either
+// order, so the log is sorted (timestamp prefix first) before hashing.
+func hashTrace(ss []string) uint64 {
+	c := append([]string(nil), ss...)
+	sort.Strings(c)
+	return hashStrings(c)
 }
 
 func hashStrings(ss []string) uint64 {
